@@ -62,7 +62,7 @@ ROOT_HELPER_RUNTIME_CALLERS = {
 def pairing(fx, ck):
     ck.rule("R1.exit-pairing", "from every opener of env_guards / call_stack each path to a return passes a closer of the same stack", floor=3)
     ck.rule("R2.cross-function", "open-only / close-only functions are the discovered cross-function pairs", floor=9)
-    ck.rule("R3.co-occurrence", "frame entry/exit touch both root stacks (call_stack and env_guards) or neither", floor=5)
+    ck.rule("R3.co-occurrence", "frame entry/exit touch both root stacks (call_stack and env_guards) or neither", floor=3)
     seen_fn = 0
     for f in fx.fns.values():
         ev = E.events(fx, f)
